@@ -294,6 +294,8 @@ def r23(ctx):
     for fn_b, nm in ((ex, 'execute'), (sp, 'space_to_reclaim')):
         if fn_b is None:
             continue
+        from ..desugar import desugared
+        fn_b = desugared(lib, fn_b)         # `remove(path).map(|()| len)` is `match remove(path) { Ok(()) => Ok(len), Err(e) => Err(e) }`
         arms = variant_arms(fn_b, lib, 1)
         if not arms:
             # or-pattern with a single body: take the places read
